@@ -62,6 +62,8 @@ def run(ctx):
             tags.append('T_case_begin_shared_end')
         ctx.violation({'text': m['text'], 'input_cps': cps(m['text']), 'abstract': m['tags'], 'clause': clause, 'tags': tags},
                       'parse(%r): %s' % (m['text'], clause))
+    from .. import widematch
+    widematch.run(ctx, quick, rng)
     ctx.cov['unspellable'] = unspellable
     return ctx.finish(
         rule='TLC-enumerated delimiter sequences (5 interaction alphabets exhaustively, all 13 tags by simulation) spelled and parsed; '
